@@ -2,6 +2,8 @@
 //! clock, hook points and transport) and E (real TopologyManager / Behaviour glue over a bus).
 
 mod c08;
+mod c12;
+mod driver;
 mod sim;
 mod util;
 
@@ -26,12 +28,22 @@ impl Engine for ClusterSimEngine {
             real_components: &["sierradb_cluster::confirmation::BucketConfirmationManager / PartitionConfirmationState / AtomicWatermark", "sierradb::Database (set_confirmations, read_partition)", "tokio::fs on the blocking pool (awaited)"],
             stub_components: &["ConfirmationActor mailbox (the manager is driven directly)", "wall/monotonic clock (simulated through the hook shim)"],
             assumptions: &["deliveries follow ConfirmTransaction's order: on-disk count first, then the update"],
+        }, PropertyInfo {
+            id: "C12",
+            level: "exploration",
+            rule: "per run a ground-truth log of 4-44 single/multi-event transactions for one partition; the simulated coordinator sends them as ReplicateWrite messages to the real PartitionReplicatorActor in a windowed or full PRNG shuffle with duplicates (same transaction id), conflicts (other transaction, same sequence), stale and far-ahead writes, buffer sizes {1,2,4,64}, withheld writes, clock advances past the catch-up and buffer timeouts, and catch-up answers {error, empty, partial, complete} through the transport seam. At every quiescent point: the partition log only grows, every applied transaction sits whole and once at the sequence its message assigned, Ok replies match the log, no unanswered unexpired write is left at or below the next expected sequence; after the last delivery every write is answered within buffer+catch-up timeout; the actor must stay alive. Non-trivial = a multi-event transaction delivered before its predecessor together with a duplicate or conflict.",
+            quick_runs: 1600,
+            thorough_runs: 40000,
+            real_components: &["sierradb_cluster::write::replicate::PartitionReplicatorActor (buffer_write, pop_next_buffered_write, write_transaction, detect_and_handle_gaps, PartitionSyncResponse)", "OrderedQueue / TimeoutOrderedQueue", "ConfirmationActor", "sierradb::Database", "kameo local actors and mailboxes", "tokio paused clock"],
+            stub_components: &["the coordinator (simulator) and the network: catch-up requests go to the transport seam", "ClusterActor's sender/staleness checks in front of the replicator are not run here", "failsafe breaker inside the replicator reads the real monotonic clock"],
+            assumptions: &["the first write applied at a sequence defines that sequence (a conflicting write that arrives first is a legitimate transaction)"],
         }]
     }
 
     fn plan(prop: &str, tier: Tier, run_seed: u64) -> Value {
         match prop {
             "C08" => c08::plan(tier, run_seed),
+            "C12" => c12::plan(tier, run_seed),
             _ => unreachable!(),
         }
     }
@@ -39,6 +51,7 @@ impl Engine for ClusterSimEngine {
     fn execute(prop: &str, plan: &Value) -> RunOutcome {
         match prop {
             "C08" => c08::execute(plan),
+            "C12" => c12::execute(plan),
             _ => unreachable!(),
         }
     }
